@@ -6,7 +6,10 @@ PROP = "C11"
 
 
 def units():
-    return units_single_step() + [FunctionUnit(StepLoop("interpreter")), FunctionUnit(StepLoop("generated")),
+    # 'stepping on behaves like a fresh stepper' rests on reset() (first action of every step) emptying the
+    # controller: ExecutionController.reset is a function this property depends on
+    from .c04 import ResetContract
+    return units_single_step() + [FunctionUnit(ResetContract()),FunctionUnit(StepLoop("interpreter")), FunctionUnit(StepLoop("generated")),
                                   FunctionUnit(SingleStepGenerated())]
 
 
